@@ -161,6 +161,23 @@ def rule_r1_r2(ctx: Ctx) -> None:
             continue
         if got != (want if isinstance(want, str) else want.label):
             bad.append({"reference": ref, "referrer": A.label, "lookup": [d.label for d in lookups], "found": got, "expected": want if isinstance(want, str) else want.label})
+    # referrers whose short name occurs earlier in their own full name (a namespace spelled like, or containing, the short
+    # name; a one-letter name): the referrer's namespace is everything before the *last* component
+    for ref_name, sibling, decoy in (("ns.Status.Status", "ns.Status.Code", "ns.Code"), ("ns.AB.A", "ns.AB.Code", "ns.Code"), ("ns.s.s", "ns.s.Code", "nCode"), ("ns.a.a.a", "ns.a.a.Code", "ns.a.Code"), ("ns.XStatus.Status", "ns.XStatus.Code", "ns.XCode")):
+        S = R.ADef(w, ref_name, 1, 0)
+        sib = R.ADef(w, sibling, 1, 0)
+        dec = R.ADef(w, decoy, 1, 0) if "." in decoy else None
+        for lookups, want in (([S, sib] + ([dec] if dec else []), sib), ([S] + ([dec] if dec else []), "UndefinedDataTypeError")):
+            del w.log[:]
+            for d in w.defs:
+                d.__dict__["composite_type"] = None
+            o = R.resolve(ctx, S, lookups, "Code", 1, 0)
+            ctx.count()
+            got = o["raised"] or getattr(o["result"], "label", o["result"])
+            if isinstance(want, str) and o["raised"] and _is_sub(ctx, o["raised"], want):
+                continue
+            if got != (want if isinstance(want, str) else want.label):
+                bad.append({"reference": "Code.1.0", "referrer": S.label, "lookup": [d.label for d in lookups], "found": got, "expected": want if isinstance(want, str) else want.label})
     ctx.check(not bad, fn.short, "relative names resolve in the referrer's namespace", "relative references are resolved in the referring definition's own namespace, nowhere else", fn.where(), bad)
 
 
@@ -281,5 +298,8 @@ def run(ctx: Ctx) -> None:
     ctx.attempt(rule_r3, ctx)
     ctx.attempt(rule_r4, ctx)
     ctx.attempt(rule_r5_lookup_from_directories, ctx)
+    from . import c09text
+
+    c09text.run(ctx)
     ctx.assume("the lookup list handed to the builder is finite; the builder forwards its lookup list unchanged (R1) and read() removes the definition itself (R3), so the list strictly shrinks along any reference chain")
     ctx.undecided("equality of the nested type with a stand-alone read for all graphs and visiting orders (depends on run-time lookup contents)")
